@@ -8,7 +8,7 @@ ID = 'C17'
 LEVEL = 'other'
 EXPLANATION = ('Static rules over every Subscription impl: K1 a composite answers is_closed() conjunctively — every part that unsubscribe() '
                'tears down is asked, and true is returned only when all of them answered true; K2 append() on an already unsubscribed '
-               'composite unsubscribes the late addition instead of dropping it; K3 the cells whose emptiness means "closed" are never '
+               'composite unsubscribes the late addition instead of dropping it; K4 unsubscribe() empties the closed-means-None slot on every path (precondition of K2 and of "any remaining handle reports closed"); K3 the cells whose emptiness means "closed" are never '
                're-filled after construction and keep_running is only ever cleared (no resurrection: true never reverts to false). '
                'Decides the per-type protocol; does not decide history-level monotonicity of MultiSubscription::is_closed across appends.')
 ASSUMPTIONS = ['a subscription type outside the crate (user-defined) follows the same contract']
@@ -31,12 +31,13 @@ CONTROLS = [
     'K1|<verif_controls::OrPair<A, B> as Subscription>::is_closed',
     'K2|verif_controls::LeakyMulti::append',
     'K3|<verif_controls::Reopenable<O>>::reopen',
+    'K4|<verif_controls::LazyMulti as Subscription>::unsubscribe',
 ]
 CONTROLS_OK = ['K1|<verif_controls::GoodPair<A, B> as Subscription>::is_closed']
 
 
 def check(cx):
-    return k1(cx) + k2(cx) + k3(cx)
+    return k1(cx) + k2(cx) + k3(cx) + k4(cx)
 
 
 def _parts(g, names):
@@ -227,3 +228,39 @@ def _is_none(e):
 def thorough():
     from ..witness import run_witnesses
     return run_witnesses(ID, ['w4'])
+
+
+K4_TAGS = {'subscription::MultiSubscription': 'self.0', 'subscription::MultiSubscriptionThreads': 'self.0',
+           'subscriber::Subscriber': 'self.0', 'subscriber::SubscriberThreads': 'self.0', '_': 'self'}
+
+
+def k4(cx):
+    """unsubscribe() empties the slot whose emptiness means 'closed' on EVERY path: only then do other handles report
+    closed and only then is a late addition torn down by append() (K2 relies on the slot being None)"""
+    from ..core import TAKE
+    F = cx.facts
+    res = []
+    n = 0
+    for im in F.impls_of('subscription::Subscription'):
+        tag = roles.impl_tag(cx, im)
+        cls = K4_TAGS.get(tag)
+        if cx.control:
+            cls = 'self.0' if tag == 'verif_controls::LazyMulti' else None
+        if cls is None:
+            continue
+        n += 1
+        fn = F.impl_fn(im, 'unsubscribe')
+        g = cx.graph(fn['key'])
+
+        def ev(x):
+            if x['kind'] == 'call' and x['name'] in TAKE and x['args'] and recv_class(x['args'][0]) == cls:
+                return ('take',)
+            return None
+        bad = lang_check(g, 'take', ev, exact=True, empty_ok=False)
+        res.append(Finding(ID, 'K4', cx.label(fn), not bad,
+                           'empties its slot on every path' if not bad else
+                           'unsubscribe() can return without emptying the slot: remaining handles keep reporting the old state and a subscription appended later is kept running instead of being torn down',
+                           fn['span'], bad[1] if bad else None))
+    if not cx.control and n < 5:
+        res.append(Finding(ID, 'K4', 'floor', False, 'expected 5 slot-based subscriptions, found %d' % n))
+    return res
